@@ -39,11 +39,13 @@ Judge(ev) ==
     [] ev.a = "call"  -> /\ ev.obs.guards = 1
                          /\ WriteOK(ev.obs.chg_hi, ev.obs.curr)
                          /\ CallOK(K, stream, fs, fedn, lost, ev.obs.ret, ev.obs.msg)
+                         /\ (ev.obs.ret = "nobuf" /\ ~lost) => NobufOK(K, ev.obs.slack)
     [] ev.a = "peek"  -> /\ ev.obs.guards = 1
                          /\ WriteOK(ev.obs.chg_hi, ev.obs.curr)
                          /\ ev.obs.ret \in {"more", "nobuf", "err"}
     [] ev.a = "run"   -> /\ ev.obs.guards = 1 /\ ev.obs.wr_margin < 0      \* every call changed bytes below its final curr only
                          \* everything is fed unless an error or the answer budget ended the run
+                         /\ (ev.obs.nobuf_slack >= 0 => NobufOK(KOf(ev.arg), ev.obs.nobuf_slack))
                          /\ ev.obs.fed <= Len(ev.arg.data)
                          /\ (ev.obs.last = "more" => ev.obs.fed = Len(ev.arg.data))
                          /\ RunOK(KOf(ev.arg), SubSeq(ev.arg.data, 1, ev.obs.fed), ev.obs.res, 1, 0, ev.obs.last)
